@@ -690,6 +690,20 @@ def normalise(t):
                 k = pred[3]
         if k is not None and not uses_elem:
             return normalise(("if", ("iflet", ("pvar", "Option::Some", k), x), ("Some", t[3]), ("None",)))
+    if h == "call" and t[1] == "Option::filter" and len(t) == 4 and _is(t[3], "lambda") and len(t[3][1]) == 1 and _is(t[3][1][0], "bind"):
+        # x.filter(|v| p(v))  ==  match x { Some(v) => if p(v) { Some(v) } else { None }, None => None }
+        v = t[3][1][0][1]
+        return normalise(("match", t[2], (("pvar", "Option::Some", ("bind", v)), ("if", t[3][2], ("Some", ("var", v)), ("None",))), (("pvar", "Option::None"), ("None",))))
+    if h == "for" and len(t) == 4 and _is(t[2], "call") and len(t[2]) == 3 and t[2][1] == "iter" and _is(t[2][2], "seq") and len(t[2][2]) > 2:
+        # for x in { a; b; v } { .. }  ==  a; b; for x in v { .. }
+        return normalise(t[2][2][:-1] + (("for", t[1], ("call", "iter", t[2][2][-1]), t[3]),))
+    if h == "call" and isinstance(t[1], str) and len(t) >= 3 and _is(t[2], "seq") and len(t[2]) > 2 and t[1] != "iter" \
+            and not any(_is(y, "ev") or _is(y, "try") or is_effect_call(y) for a_ in t[3:] for y in _subterms(a_)):
+        # f({ a; b; v }, pure..)  ==  a; b; f(v, pure..)        (the first argument is evaluated first)
+        return normalise(t[2][:-1] + ((t[0], t[1], t[2][-1]) + t[3:],))
+    if h == "call" and t[1] == "Vec::push" and len(t) == 4 and _is(t[3], "seq") and len(t[3]) > 2:
+        # v.push({ a; b; x })  ==  a; b; v.push(x)
+        return normalise(t[3][:-1] + (("call", "Vec::push", t[2], t[3][-1]),))
     if h == "mapopt" and len(t) == 4 and _is(t[1], "okopt") and len(t[1]) == 2 and _is(t[2], "bind"):
         # r.ok().map(f) == match r { Ok(v) => Some(f(v)), Err(_) => None }
         return normalise(("match", t[1][1], (("pvar", "Result::Ok", t[2]), ("Some", t[3])), (("pvar", "Result::Err", "_"), ("None",))))
@@ -1010,7 +1024,7 @@ def normalise(t):
                 m = "m%d" % _FOLD_CTR[0]
                 xn = f_[1][0][1] if _is(f_, "lambda") else "b%d" % _FOLD_CTR[0]
                 body = f_[2] if _is(f_, "lambda") else ("icall", f_, ("var", xn))
-                if not (_is(it, "call") and it[1] == "iter"):
+                if not (_is(it, "call") and it[1] == "iter") and not (_is(it, "range") or _is(it, "rangei")):
                     it = ("call", "iter", it)
                 return normalise(("seq", ("let", m, ("call", "Vec::new")), ("for", ("bind", xn), it, ("call", "Vec::push", ("var", m), ("try", body))), ("var", m)))
     if h == "try" and _is(t[1], "lift"):
